@@ -32,7 +32,7 @@ from harness import common
 from harness.common import Model
 
 PID = "C08"
-TRANSLATORS = ["T-hashes", "T-storeconsts", "T-storeaxioms"]
+TRANSLATORS = ["T-hashes", "T-storeconsts", "T-preregistry", "T-storeaxioms"]
 
 # Genuine defects of halmos reproduced by this check on the unchanged tree.  A failing input
 # whose `sig` matches one of these is printed as KNOWN-FINDING and does not fail the check.
@@ -201,6 +201,112 @@ def boundary_slots():
             p += 1
         BOUNDARY_SLOTS = (hi, lo)
     return BOUNDARY_SLOTS
+
+
+# ----------------------------------------------------------------------------- precomputed-table constants
+
+def table_entries(r, n512=5, n256=3):
+    """rows of halmos' own precomputed tables (hashes.py as imported): (bits, hash constant, preimage words).
+    512-bit rows with key != slot (the order of the two words matters), key == slot, and 256-bit rows."""
+    import halmos.hashes as hs
+
+    rows512 = sorted(hs.keccak256_512.items())
+    rows256 = sorted(hs.keccak256_256.items())
+    diff = [(h, ab) for h, ab in rows512 if ab[0] != ab[1]]
+    same = [(h, ab) for h, ab in rows512 if ab[0] == ab[1]]
+    pick = [x for x in diff if tuple(x[1]) == (0, 1)][:1]
+    pick += r.sample(diff, min(len(diff), n512 - len(pick)))
+    pick += r.sample(same, min(len(same), 1))
+    out = [(512, h, tuple(ab)) for h, ab in pick]
+    out += [(256, h, (x,)) for h, x in r.sample(rows256, min(len(rows256), n256))]
+    return out
+
+
+def _plus(t, off):
+    return t if off == 0 else ("Add", [t, ("K", off)])
+
+
+def _table_offset(r, h):
+    """0 or a small offset that stays inside the hash's 2^16 bucket (outside: known finding)"""
+    off = r.choice([0, 0, 1, 3])
+    return off if (h + off) >> 16 == h >> 16 else 0
+
+
+def table_programs(r, tier):
+    """a location written as a PUSH32 constant of a precomputed-table row (+ small offset) and the
+    SAME location reached by a run-time SHA3 of the row's preimage (concrete words / symbolic key
+    or index), store through one spelling and load through the other, both directions, both layouts"""
+    P = []
+    for bits, h, pre in table_entries(r, *((5, 3) if tier == "quick" else (40, 20))):
+        off = _table_offset(r, h)
+        const = ("K", h + off)
+        if bits == 512:
+            a, b = pre
+            conc = _plus(("S512", ("K", a), ("K", b)), off)
+            symb = _plus(("S512", ("V", 0), ("K", b)), off)
+            envs = [[a, 0, 7], [a + 1, 0, 7], [b, 0, 7]]
+        else:
+            (x,) = pre
+            conc = _plus(("S256", ("K", x)), off)
+            symb = ("Add", [("S256", ("K", x)), ("V", 0)])
+            envs = [[off, 0, 7], [off + 1, 0, 7]]
+        name = f"table{bits}-{'.'.join(map(str, pre))}+{off}"
+        for layout in ("solidity", "generic"):
+            # constant first: its preimage has not been hashed on this path when it is decoded
+            P.append({"ops": [("sstore", const, ("K", 0x2A)), ("sload", symb), ("sload", conc), ("sload", const)],
+                      "nargs": 3, "layout": layout, "tags": ["table-constant"], "name": name + "-const-then-hash", "envs": envs})
+            P.append({"ops": [("sstore", symb, ("V", 2)), ("sload", const), ("sstore", const, ("K", 0x42)), ("sload", symb)],
+                      "nargs": 3, "layout": layout, "tags": ["table-constant"], "name": name + "-hash-then-const", "envs": envs})
+    return P
+
+
+def table_groups(r, tier):
+    """L1a groups (empty per-path registry): the constant spelling of a precomputed-table row and
+    the hash-term spellings of the same location must decode to the same chunk and key"""
+    G = []
+    for bits, h, pre in table_entries(r, *((8, 4) if tier == "quick" else (60, 30))):
+        off = _table_offset(r, h)
+        if bits == 512:
+            a, b = pre
+            locs = [("K", h + off), _plus(("S512", ("V", 0), ("K", b)), off), ("S512", ("V", 1), ("K", b))]
+            envs = [[a, a, 0], [a, a + 1, 0], [a + 1, b, 0]]
+        else:
+            (x,) = pre
+            locs = [("K", h + off), ("Add", [("S256", ("K", x)), ("V", 0)]), ("K", x)]
+            envs = [[off, 0, 0], [off + 1, 0, 0], [0, 0, 0]]
+        G.append({"reg": [], "locs": locs, "envs": envs, "tags": [["table-constant"]] + [[] for _ in locs[1:]], "allh": [h],
+                  "canon": locs, "flat_add": True, "layout_types": {"table": f"{bits}:{pre}"}})
+    return G
+
+
+FAILING_CALLEE = 0xC0DE
+# ORIGIN PUSH1 8 JUMPI ; PUSH1 0 DUP1 REVERT ; JUMPDEST <fail>
+FAILING_CALLEE_CODE = {"revert/revert": bytes.fromhex("32600857600080fd5b600080fd"),
+                       "revert/invalid": bytes.fromhex("32600857600080fd5bfe")}
+
+
+def failed_call_programs(r, tier):
+    """a sub-call failing on two forked callee paths, then read-modify-write stores and loads in the
+    caller: per path every load must return the last store of ITS path, and the paths must not share
+    storage objects"""
+    P = []
+    m = ("S512", ("K", 7), ("K", 1))
+    ms = ("S512", ("V", 0), ("K", 1))
+    arr = ("Add", [("S256", ("K", 2)), ("V", 1)])
+    shapes = [
+        [("sinc", ("K", 0)), ("sinc", m), ("sload", m), ("sload", ("K", 0))],
+        [("sstore", ms, ("K", 5)), ("sinc", ms), ("sinc", ("K", 3)), ("sload", ms), ("sload", ("K", 3)), ("sload", m)],
+        [("tinc", ("K", 0)), ("tinc", m), ("sinc", arr), ("tload", m), ("tload", ("K", 0)), ("sload", arr)],
+    ]
+    n = 0
+    for layout in ("solidity", "generic"):
+        for ops in shapes:
+            kind = ["revert/revert", "revert/invalid"][n % 2]
+            call_op = ["CALL", "STATICCALL", "DELEGATECALL", "CALLCODE"][n % 4] if tier != "quick" or n % 3 else "CALL"
+            n += 1
+            P.append({"ops": ops, "nargs": 3, "layout": layout, "tags": ["failed-subcall"], "name": f"failed-call-{kind}",
+                      "failed_call": kind, "call_op": call_op, "origins": [0xC0FFEE, 0], "envs": [[7, 0, 0], [7, 0, 0], [1, 2, 3], [1, 2, 3]], "nenv": 2})
+    return P
 
 
 def gen_group(r, tier, p_unreg=0.06, special=None):
@@ -683,8 +789,18 @@ def l2_worker(task):
 
     r = random.Random(seed)
     items, nload = L.program(prog["ops"], prog["nargs"])
+    accounts = {}
+    if prog.get("failed_call"):
+        # a sub-call whose callee forks on ORIGIN and fails on BOTH sides (revert / invalid), before the
+        # caller's stores and loads: the caller resumes once per failed callee path, every continuation
+        # from the pre-call snapshot of the network state
+        accounts[FAILING_CALLEE] = {"code": FAILING_CALLEE_CODE[prog["failed_call"]]}
+        items = [("push", 0)] * 5 + [("pushn", 20, FAILING_CALLEE), ("push", 0xFFFF), prog.get("call_op", "CALL"), "POP"] + items
+        if prog.get("call_op", "CALL") in ("STATICCALL", "DELEGATECALL"):
+            items = items[1:]
     code = asm.assemble(items)
-    scn = {"profile": "c08", "accounts": {scenarios.THIS: {"code": code}}, "this": scenarios.THIS,
+    accounts[scenarios.THIS] = {"code": code}
+    scn = {"profile": "c08", "accounts": accounts, "this": scenarios.THIS,
            "calldata": [("c", b"\x12\x34\x56\x78")] + [("s", f"arg{i}", 32) for i in range(prog["nargs"])],
            "static": False, "options": {"storage_layout": prog["layout"]}}
     paths, flags = engine.run_scenario(scn)
@@ -693,9 +809,16 @@ def l2_worker(task):
         dom = [0, 1, 2, 3] if i < 4 else [0, 1, 2, 3, 255, 256, L.W - 1, r.getrandbits(256)]
         envs.append([r.choice(dom) for _ in range(prog["nargs"])])
     res = {"kinds": [p.kind for p in paths], "crashed": flags["crashed"], "fails": [], "evaluated": 0, "uncovered": 0,
-           "errors": 0, "code": code.hex(), "nload": nload}
-    for env in envs:
-        inp = {"caller": 0xC0FFEE, "origin": 0xC0FFEE, "value": 0, "args": {f"arg{i}": v for i, v in enumerate(env)}, "balances": {}}
+           "errors": 0, "code": code.hex(), "nload": nload, "shared": []}
+    if prog.get("failed_call"):
+        from harness import c09_lib
+
+        # storage objects must never be shared between sibling paths (SSTORE/TSTORE mutate them in place)
+        res["shared"] = c09_lib.shared_objects(paths)[:3]
+        res["npaths_ok"] = sum(1 for p in paths if p.kind == "ok")
+    origins = prog.get("origins", [0xC0FFEE])
+    for ei, env in enumerate(envs):
+        inp = {"caller": 0xC0FFEE, "origin": origins[ei % len(origins)], "value": 0, "args": {f"arg{i}": v for i, v in enumerate(env)}, "balances": {}}
         expect = L.ref_program(prog["ops"], env)
         holders = 0
         for p in paths:
@@ -729,6 +852,7 @@ def l2_worker(task):
                                          f"{hex(default)} at every index without an emptiness axiom in the path (a model of the path condition)"})
         if not holders and not flags["crashed"] and not any(k.startswith("stuck") for k in res["kinds"]):
             res["uncovered"] += 1
+            res.setdefault("uncovered_inputs", []).append({"env": env, "origin": inp["origin"]})
     return res
 
 
@@ -748,7 +872,7 @@ def run_l2(rep, tier, r):
     from harness import pool
 
     n = 240 if tier == "quick" else 3000
-    progs = corpus_programs() + [gen_program(r, tier) for _ in range(n)]
+    progs = corpus_programs() + table_programs(r, tier) + failed_call_programs(r, tier) + [gen_program(r, tier) for _ in range(n)]
     tasks = [(r.getrandbits(32), p) for p in progs]
     bs = 10
     batches = [tasks[i:i + bs] for i in range(0, len(tasks), bs)]
@@ -775,6 +899,17 @@ def run_l2(rep, tier, r):
         rep.case({"l2": {"ops": prog["ops"], "layout": prog["layout"]}}, nontrivial=val["evaluated"] > 0 and any(o[0] in ("sload", "tload") for o in prog["ops"][:-1]))
         if val["uncovered"]:
             rep.count("l2_uncovered_valuations", prog["layout"], val["uncovered"])
+        if prog.get("failed_call"):
+            rep.count("l2_failed_call_paths", val.get("npaths_ok", 0))
+            if val.get("npaths_ok", 0) < 2:
+                rep.fail("broken-tie", f"L2 sub-call leg: the failing callee was expected to give >= 2 caller continuations, got path kinds {val['kinds']} for {prog['ops']}", case={"l2": prog})
+            if val["uncovered"]:
+                u = val["uncovered_inputs"][0]
+                rep.fail("failing-input", f"after a sub-call that failed on >= 2 paths, NO reported path holds / can be evaluated for args {u['env']} origin={hex(u['origin'])} (layout={prog['layout']}, {prog.get('call_op', 'CALL')}): the loads of the path covering it do not return the last store of that path (terms over storage arrays defined only in a sibling path); program {prog['ops']}; path kinds {val['kinds']}",
+                         case={"l2": prog, "env": u["env"], "origin": u["origin"], "code": val["code"]}, sig={"feature": "failed-subcall-uncovered", "layout": prog["layout"]})
+            for what in val["shared"][:1]:
+                rep.fail("broken-tie", f"after a sub-call that failed on >= 2 paths the reported paths share a storage object (a store in one path is visible to its sibling; layout={prog['layout']}, {prog.get('call_op', 'CALL')}): {what}; program {prog['ops']}",
+                         case={"l2": prog, "code": val["code"]})
         if val["fails"]:
             f = val["fails"][0]
             feats = program_features(prog, f["env"])
@@ -871,6 +1006,7 @@ def run(rep, tier):
     # ---- L1a
     ngroups = 260 if tier == "quick" else 4000
     groups = [gen_group(r, tier, special="boundary" if i % 9 == 0 else None) for i in range(ngroups)]
+    groups = table_groups(r, tier) + groups
     if tier == "quick":
         impl = [impl_group(g) for g in groups]     # ~20 ms per group: cheaper than forking a pool
     else:
